@@ -1,6 +1,6 @@
 //! Relational oracles: C02, C03, C05, C06, C09, C10, C11, and the multi-line literal value model.
 use crate::cfg::{BeginStyle, Cfg, Le};
-use crate::grammar::{GTok, M_A, M_B, M_C, M_D, M_K, M_O, M_S, M_T};
+use crate::grammar::{GTok, M_A, M_B, M_C, M_D, M_I, M_K, M_O, M_S, M_T};
 use crate::oracles::{case_fmt, verbatim_mask};
 use crate::refscan::{self as r, CommentKind, Kind, TextKind, Tok};
 use crate::runner::Ctx;
@@ -207,6 +207,32 @@ pub fn c02(x: &str, out: &str, cfg: &Cfg, ctx: &mut Ctx) -> bool {
         ctx.nontrivial();
     }
     true
+}
+
+/// identifiers that the generator knows to be identifiers (although their spelling is that of a
+/// contextual keyword) must come out with exactly their text
+pub fn c02_identifiers(x: &str, toks: &[GTok], out: &str, cfg: &Cfg, ctx: &mut Ctx) {
+    let tx = r::scan(x);
+    let to = r::scan(out);
+    let commentish = |t: &Tok| matches!(t.kind, Kind::Comment(_) | Kind::CompilerDirective | Kind::Conditional(_));
+    let kx: Vec<&Tok> = tx.iter().filter(|t| !commentish(t)).collect();
+    let ko: Vec<&Tok> = to.iter().filter(|t| !commentish(t)).collect();
+    let gen: Vec<&GTok> = toks.iter().filter(|t| !(t.text.starts_with("{$") || t.text.starts_with('{') && t.text.ends_with('}'))).collect();
+    if kx.len() != gen.len() + 1 || ko.len() != kx.len() {
+        ctx.count("c02.identifier-mapping-skipped");
+        return;
+    }
+    for (i, g) in gen.iter().enumerate() {
+        if g.marks & M_I != 0 && ko[i].text(out) != g.text {
+            ctx.fail(
+                "C02",
+                "identifier-text-changed",
+                format!("identifier {:?} (token {i}) became {:?}; output {out:?}", g.text, ko[i].text(out)),
+                json!({"oracle": "c02", "input": x, "cfg": cfg, "identifiers": gen.iter().enumerate().filter(|(_, g)| g.marks & M_I != 0).map(|(i, _)| i).collect::<Vec<_>>()}),
+            );
+            return;
+        }
+    }
 }
 
 // ---------------------------------------------------------------------------------------------
